@@ -82,12 +82,18 @@ Definition valid_selection (maxin mc target : Z) (offered : list coin) (s : coin
   /\ (sumv (cs_list s) = target \/ sumv (cs_list s) >= target + mc)
   /\ cs_tv s = sumv (cs_list s) /\ cs_tva s = sumvax (cs_list s).
 
+Lemma nodup_app_l {A} (a b : list A) : NoDup (a ++ b) -> NoDup a.
+Proof.
+  induction a as [|x a IH]; cbn [app]; intros H; [constructor|]. inversion H; subst.
+  constructor; [|auto]. intros Hin. apply H2. apply in_or_app. left. exact Hin.
+Qed.
+
 Lemma sub_multiset_nodup sel offered :
   sub_multiset sel offered -> NoDup (map cid offered) -> NoDup (map cid sel) /\ incl sel offered.
 Proof.
   intros [rest Hp] Hnd. split.
   - apply (Permutation_map cid) in Hp. apply Permutation_sym in Hp. apply (Permutation_NoDup Hp) in Hnd.
-    rewrite map_app in Hnd. apply NoDup_app_remove_r in Hnd. exact Hnd.
+    rewrite map_app in Hnd. apply nodup_app_l in Hnd. exact Hnd.
   - intros x Hx. apply (Permutation_in _ Hp). apply in_or_app. left. exact Hx.
 Qed.
 
@@ -174,10 +180,10 @@ Proof.
       specialize (Hx _ H0). specialize (Hy _ H). lia. }
     cbn [map]. f_equal; [exact Hk|].
     (* remove one element of key (key x) from both *)
-    destruct (Permutation_vs_cons_inv Hp) as (b1 & b2 & Eb).
-    destruct b1 as [|z b1]; cbn in Eb.
-    + inversion Eb; subst. apply IH; auto. eapply Permutation_cons_inv; eassumption.
-    + inversion Eb; subst z. subst b.
+    destruct (Permutation_vs_cons_inv (Permutation_sym Hp)) as (b1 & b2 & Eb).
+    destruct b1 as [|z b1]; cbn [app] in Eb.
+    + injection Eb as Ey Eb'. subst y b. apply IH; auto. eapply Permutation_cons_inv; eassumption.
+    + injection Eb as Ey Eb'. subst z b.
       (* y :: b1 ++ x :: b2, with key x = key y: swap x and y *)
       assert (Hb2 : desc_by key (b1 ++ y :: b2)).
       { clear - Hb' Hy Hk. unfold desc_by in *.
@@ -188,7 +194,7 @@ Proof.
           rewrite Forall_app in *. destruct Hz as [Hz1 Hz2]. split; [exact Hz1|].
           inversion Hz2; subst. constructor; [lia|assumption]. }
       assert (Hp2 : Permutation a (b1 ++ y :: b2)).
-      { apply (Permutation_cons_inv (a := x)). rewrite Hp. rewrite perm_swap. apply perm_skip.
-        rewrite <- !Permutation_middle. apply perm_swap. }
+      { apply (Permutation_cons_inv (a := x)). rewrite Hp.
+        rewrite <- (Permutation_middle b1 b2 x), <- (Permutation_middle b1 b2 y). apply perm_swap. }
       rewrite (IH _ Ha' Hb2 Hp2). rewrite !map_app. cbn [map]. rewrite Hk. reflexivity.
 Qed.
